@@ -284,6 +284,11 @@ impl Generator
 	{
 		if let Some(&constant) = self.constants.get(&name.resolution_id)
 		{
+			// Constant folding can also yield undef or poison (`1 / 0`).
+			if unsafe { LLVMIsAConstantInt(constant) }.is_null()
+			{
+				return None;
+			}
 			let v: u64 = unsafe { LLVMConstIntGetZExtValue(constant) };
 			v.try_into().ok()
 		}
